@@ -49,6 +49,46 @@ CHECKS = {
              "probe of the full alphabet, depth-2 over the full alphabet (sampled in quick), random histories to depth 16",
         units=[U("histories", "hv", "c04", shards=(8, 16))],
     ),
+    "C05": dict(
+        level="exploration",
+        rule="one case = one hostile byte stream (1..=6 messages from the grammar-aware generator: valid messages with "
+             "mutated size/flags/version/code/body, boundary numerics, truncation, garbage, 0..=40 descriptors at "
+             "header/body/random positions) fed to the real server after a random negotiation history, plus directed "
+             "invalid-argument messages; distinct by the stream's mutation description; non-trivial = the server "
+             "parsed at least the first header under the panic/validity monitors",
+        units=[U("streams", "hv", "c05", shards=(8, 16), crash_is_violation=True)],
+    ),
+    "C06": dict(
+        level="exploration",
+        rule="one case = (endpoint, request, one-dimensional reply mutation) answered by a raw peer that then ends the "
+             "stream, or one hostile stream / well-framed request with 0..=3 descriptors to the frontend request "
+             "server; distinct by (endpoint, request, mutation) resp. stream description",
+        units=[U("parsers", "hv", "c06", shards=(6, 16), crash_is_violation=True)],
+    ),
+    "C09": dict(
+        level="fault_enumeration",
+        rule="one case = one scenario (hostile stream with 0..=40 descriptors to a server torn down after k requests; "
+             "frontend call answered with 0..=40 wanted/unwanted descriptors; proxies lent descriptors) bracketed by "
+             "two /proc/self/fd censuses; distinct by scenario description and teardown point",
+        units=[U("census", "hv", "c09", shards=(6, 16))],
+    ),
+    "C10": dict(
+        level="exploration",
+        rule="one case = one schedule (priority order of the controllable actions start/grant-hold/send-reply of 2-3 "
+             "concurrent calls on clones of one endpoint); all well-formed orders for 2 callers over the call-kind "
+             "mixes, sampled for 3; distinct by the interleaving actually observed (trace of actions, peer reads and "
+             "returns); plus an 8-thread stress phase with jitter at the hold points",
+        units=[U("schedules", "hv", "c10", shards=(6, 12)),
+               U("tsan-stress", "hv", "c10", build="tsan", tiers=("thorough",), shards=(1, 1),
+                 args=dict(thorough=["--only", "stress"]), env={"TSAN_OPTIONS": "halt_on_error=0 report_signal_unsafe=0"})],
+    ),
+    "C18": dict(
+        level="exploration",
+        rule="one case = one backend-initiated request (5 kinds, valid random arguments) x handler result (0, non-zero "
+             "values, every errno 1..=133, error without errno) x REPLY_ACK on/off inside a long session relayed by a "
+             "decoding tap; distinct by (request kind, handler result, REPLY_ACK, argument bytes)",
+        units=[U("proxy-handler", "hv", "c18", shards=(2, 8))],
+    ),
     "C07": dict(
         level="exploration",
         rule="one case = (feature subset or negotiation order, gated operation) on one endpoint; exhaustive over all "
